@@ -40,6 +40,25 @@ def grammar_cases(seed, n, exotic=True):
         g = G(rng.fork(), exotic=exotic and i % 2 == 1)
         t = g.line()
         out.append(Case(t, g.roles, g.fields, g.ns))
+    # directed tail: WIDE lists (an `$in` over more than a thousand values is ordinary) - all plain strings, and with a number /
+    # an e-mail / a document among them - in a filter, a `$match` and an update
+    for j, (n_, odd) in enumerate([(1001, None), (1500, None), (1200, "num"), (1100, "email"), (1000, None), (2000, "doc")]):
+        g = G(rng.fork())
+        vals = [g.tok("S") for _ in range(n_)]
+        if odd == "num":
+            vals[n_ // 2] = g.num()
+        elif odd == "email":
+            vals[7] = g.email()
+        elif odd == "doc":
+            vals[-1] = Obj([(g.field(), g.tok("S"))])
+        f = g.field()
+        op = ["$in", "$nin", "$all"][j % 3]
+        cmd = [Obj([("find", "widecoll"), ("filter", Obj([(f, Obj([(op, vals)]))])), ("$db", "widedb")]),
+               Obj([("aggregate", "widecoll"), ("pipeline", [Obj([("$match", Obj([(f, Obj([(op, vals)]))]))])]), ("$db", "widedb")]),
+               Obj([("update", "widecoll"), ("updates", [Obj([("q", Obj([(f, g.tok("S"))])), ("u", Obj([("$push", Obj([(f, Obj([("$each", vals)]))]))]))])]), ("$db", "widedb")])][j % 3]
+        t = Obj([("t", Obj([("$date", "2024-05-02T12:00:00.000+00:00")])), ("s", "I"), ("c", "COMMAND"), ("id", Num("51803")), ("ctx", "conn9"), ("msg", "Slow query"),
+                 ("attr", Obj([("type", "command"), ("ns", "widedb.widecoll"), ("command", cmd), ("durationMillis", Num("12"))]))])
+        out.append(Case(t, g.roles, g.fields, "widedb.widecoll", "grammar"))
     return out
 
 
